@@ -12,10 +12,12 @@ import tracecheck
 
 NZ = [1, 3, 255]
 DECOYS_ANY = ["';'", '"&&"', "'||'", '"; vmk 99 0"', "'&& vmk 98 0'", '"|| x"',
-              '"it\'s"', "'a\"b'", '"x\' ; vmk 97 0"', "'y\" && vmk 96 0'", '"`"', "'`;'"]
+              '"it\'s"', "'a\"b'", '"x\' ; vmk 97 0"', "'y\" && vmk 96 0'", '"`"', "'`;'",
+              "é", "中文", "'€ ; 中'", '"ü&&ö"']
 DECOY_TEXT = {"';'": ";", '"&&"': "&&", "'||'": "||", '"; vmk 99 0"': "; vmk 99 0", "'&& vmk 98 0'": "&& vmk 98 0",
               '"|| x"': "|| x", '"it\'s"': "it's", "'a\"b'": 'a"b', '"x\' ; vmk 97 0"': "x' ; vmk 97 0",
-              "'y\" && vmk 96 0'": 'y" && vmk 96 0', '"`"': "`", "'`;'": "`;", "\\;": ";", "\\&\\&": "&&", "\\|\\|x": "||x"}
+              "'y\" && vmk 96 0'": 'y" && vmk 96 0', '"`"': "`", "'`;'": "`;", "\\;": ";", "\\&\\&": "&&", "\\|\\|x": "||x",
+              "é": "é", "中文": "中文", "'€ ; 中'": "€ ; 中", '"ü&&ö"': "ü&&ö"}
 DECOYS_C_ONLY = ["\\;", "\\&\\&"]
 
 
